@@ -16,6 +16,9 @@ Section History.
   | OpAbandon (m : mode) (limit : option nat) (raws : list (list text)) (fault : bool) (k : nat)
       (* cutplace.rows(...): k outputs are taken, then the generator is closed *)
   | OpNoClose (m : mode) (limit : option nat) (raws : list (list text)) (fault : bool) (* Reader.rows() consumed, reader never closed *)
+  | OpByHand (m : mode) (limit : option nat) (raws : list (list text)) (fault : bool)
+      (* a Reader used without `with`: rows() consumed - or ended by an error -, then close() called by hand, whose own
+         verdict the caller sees (it is not dropped as under `with`); reported in oc_writes *)
   | OpWrite (rows : list (list text)) (do_close : bool)                               (* Writer: write_row each, optionally close *)
   | OpLate (first : late_first) (m : mode) (limit : option nat) (raws : list (list text)) (fault : bool) (j : nat).
       (* an earlier run is left unfinished (a suspended rows() generator, an open Writer); cutplace.rows(...) is then
@@ -107,6 +110,10 @@ Section History.
     | OpNoClose m limit raws fault =>
         let '(sf, outs, r, _) := reader_rows c m limit sts raws fault in
         (rs_sts sf, {| oc_outs := outs; oc_raised := r; oc_writes := []; oc_emitted := [] |})
+    | OpByHand m limit raws fault =>
+        let '(sf, outs, r, _) := reader_rows c m limit sts raws fault in
+        let '(sts', ce, _) := close c (rs_sts sf) (rs_loc sf) in
+        (sts', {| oc_outs := outs; oc_raised := r; oc_writes := [ce]; oc_emitted := [] |})
     | OpWrite rows do_close =>
         let '(wf, es) := write_all c (writer_init c sts) rows in
         if do_close then
